@@ -7,14 +7,14 @@ import PercevalModel.Lemmas.C16
 namespace PM.C16
 open PM.SM
 
-/-! ### `alias = false` is the symbol machine -/
+/-! ### `aliased = false` is the symbol machine -/
 
 theorem hstep_false (hw : HWorld) (op : Op) :
     (hstep false hw op).1.w = (step hw.w op).1 ∧ (hstep false hw op).2 = (step hw.w op).2 := by
   cases op <;> exact ⟨rfl, rfl⟩
 
-theorem hstep_not_execute (alias : Bool) (hw : HWorld) (op : Op) (h : op.isExecute = false) :
-    (hstep alias hw op).1.w = (step hw.w op).1 ∧ (hstep alias hw op).2 = (step hw.w op).2 := by
+theorem hstep_not_execute (aliased : Bool) (hw : HWorld) (op : Op) (h : op.isExecute = false) :
+    (hstep aliased hw op).1.w = (step hw.w op).1 ∧ (hstep aliased hw op).2 = (step hw.w op).2 := by
   cases op <;> first | exact ⟨rfl, rfl⟩ | simp [Op.isExecute] at h
 
 /-! ### `setLast` -/
@@ -31,7 +31,7 @@ theorem setLast_length {α : Type} (l : List α) (x : α) (h : l ≠ []) : (setL
   unfold setLast
   rw [if_neg h]
   have : 0 < l.length := List.length_pos_iff.mpr h
-  simp
+  rw [List.length_append, List.length_dropLast, List.length_singleton]
   omega
 
 theorem setLast_getD {α : Type} (l : List α) (x d : α) (i : Nat) (h : i + 1 < l.length) :
@@ -42,10 +42,8 @@ theorem setLast_getD {α : Type} (l : List α) (x d : α) (i : Nat) (h : i + 1 <
   have h1 : i < l.dropLast.length := by simp; omega
   simp only [List.getD_eq_getElem?_getD]
   rw [List.getElem?_append_left h1, List.getElem?_dropLast]
-  simp [h1]
-  intro hle
-  simp at h1
-  omega
+  have h2 : i < l.length - 1 := by omega
+  rw [if_pos h2]
 
 theorem setLast_getD_last {α : Type} (l : List α) (x d : α) (h : l ≠ []) :
     (setLast l x).getD (l.length - 1) d = x := by
@@ -117,28 +115,37 @@ theorem heapAfter_current (hw : HWorld) (op : Op) (w' : World) (o : Out) : (heap
     simp only [heapAfter, hs']
     exact setLast_getLast? _ _
 
-theorem hstep_current (alias : Bool) (hw : HWorld) (op : Op) : (hstep alias hw op).1.Current :=
+theorem hstep_current (aliased : Bool) (hw : HWorld) (op : Op) : (hstep aliased hw op).1.Current :=
   heapAfter_current _ _ _ _
 
 /-- a call that does not rebind `_parameters` keeps the number of dictionaries (once there is one), the content
 of all but the current one, and the references of the jobs created so far -/
-theorem hstep_keeps_objects (alias : Bool) (hw : HWorld) (op : Op) (hop : op.rebindsParams = false)
+theorem heapAfter_keeps_objects (hw : HWorld) (op : Op) (w' : World) (o : Out) (hop : op.rebindsParams = false)
     (hne : hw.pobjs ≠ []) :
-    (hstep alias hw op).1.pobjs.length = hw.pobjs.length ∧
-    (∀ i, i + 1 < hw.pobjs.length → (hstep alias hw op).1.pobjs.getD i [] = hw.pobjs.getD i []) ∧
-    (∀ idx, idx < hw.jrefs.length → (hstep alias hw op).1.jrefs[idx]? = hw.jrefs[idx]?) := by
-  simp only [hstep, heapAfter, hop, Bool.false_and, Bool.false_eq_true, if_false]
+    (heapAfter hw op w' o).pobjs.length = hw.pobjs.length ∧
+    (∀ i, i + 1 < hw.pobjs.length → (heapAfter hw op w' o).pobjs.getD i [] = hw.pobjs.getD i []) ∧
+    (∀ idx, idx < hw.jrefs.length → (heapAfter hw op w' o).jrefs[idx]? = hw.jrefs[idx]?) := by
   refine ⟨?_, ?_, ?_⟩
-  · split
+  · simp only [heapAfter, hop, Bool.false_and, Bool.false_eq_true, if_false]
+    split
     · exact setLast_length _ _ hne
     · rfl
   · intro i hi
+    simp only [heapAfter, hop, Bool.false_and, Bool.false_eq_true, if_false]
     split
     · exact setLast_getD _ _ _ _ hi
     · rfl
   · intro idx hidx
-    split
-    · rw [List.getElem?_append_left hidx]
-    · rfl
+    by_cases hc : w'.jobs.length = hw.w.jobs.length + 1
+    · simp only [heapAfter, hc, if_true]
+      exact List.getElem?_append_left hidx
+    · simp only [heapAfter, hc, if_false]
+
+theorem hstep_keeps_objects (aliased : Bool) (hw : HWorld) (op : Op) (hop : op.rebindsParams = false)
+    (hne : hw.pobjs ≠ []) :
+    (hstep aliased hw op).1.pobjs.length = hw.pobjs.length ∧
+    (∀ i, i + 1 < hw.pobjs.length → (hstep aliased hw op).1.pobjs.getD i [] = hw.pobjs.getD i []) ∧
+    (∀ idx, idx < hw.jrefs.length → (hstep aliased hw op).1.jrefs[idx]? = hw.jrefs[idx]?) :=
+  heapAfter_keeps_objects hw op _ _ hop hne
 
 end PM.C16
